@@ -1,7 +1,482 @@
-"""Checker self-test (thorough tier): in-memory single-site mutations of the current source. Filled in later."""
+"""Checker self-test for the thorough tier (DESIGN §1.5, §25).
+
+Variants of the *current* source of /repo/pane are built in memory (never written under /repo or /verif; nothing is
+executed) and the rules of the property are run on each:
+
+ * breaking variants  — the committed seeded patches and the reversed fix commits that are recorded (in
+   selftest_expected.json) as detected by this property, plus single-site mutants computed from the current AST
+   (handler narrowed, gate deleted, forwarded keyword dropped, table cell widened, operator flipped, ...).  The
+   property's rules must report a finding on each.
+ * benign variants — behaviour-preserving rewrites computed from the current AST (locals renamed, ``raise X()`` vs
+   ``raise X``, ``if a or b`` split, comparison operands swapped, whole-file reformat) and the breaking patches recorded as
+   *not* affecting this property.  The rules must stay silent and decided on each.
+
+The result is reported in the evidence file; it never turns a run on the real tree into a violation.
+"""
 from __future__ import annotations
+
+import ast
+import copy
+import glob
+import json
+import os
+import re
+import time
 import typing as t
+from concurrent.futures import ProcessPoolExecutor
+
+from . import report
+from .model import AnalysisError, Model
+
+HERE = os.path.dirname(os.path.dirname(os.path.abspath(__file__)))
+EXPECTED_FILE = os.path.join(HERE, 'selftest_expected.json')
+
+
+# ---------------------------------------------------------------------------- patches in memory
+
+
+def parse_patch(text: str) -> t.Dict[str, t.List[t.Tuple[int, t.List[str], t.List[str]]]]:
+    """unified diff -> {path: [(old_start, old_lines, new_lines)]}"""
+    files: t.Dict[str, t.List[t.Tuple[int, t.List[str], t.List[str]]]] = {}
+    cur: t.Optional[str] = None
+    hunk: t.Optional[t.Tuple[int, t.List[str], t.List[str]]] = None
+    for line in text.splitlines():
+        if line.startswith('+++ '):
+            p = line[4:].strip()
+            cur = p[2:] if p.startswith('b/') else p
+            files.setdefault(cur, [])
+            hunk = None
+        elif line.startswith('--- ') or line.startswith('diff ') or line.startswith('index '):
+            continue
+        elif line.startswith('@@'):
+            m = re.match(r'@@ -(\d+)(?:,\d+)? \+\d+(?:,\d+)? @@', line)
+            if m and cur is not None:
+                hunk = (int(m.group(1)), [], [])
+                files[cur].append(hunk)
+        elif hunk is not None:
+            if line.startswith('+'):
+                hunk[2].append(line[1:])
+            elif line.startswith('-'):
+                hunk[1].append(line[1:])
+            elif line.startswith(' ') or line == '':
+                hunk[1].append(line[1:])
+                hunk[2].append(line[1:])
+            elif line.startswith('\\'):
+                continue
+    return files
+
+
+def apply_patch(root: str, text: str) -> t.Optional[t.Dict[str, str]]:
+    """Apply a unified diff to the files under ``root`` in memory; None when it does not apply."""
+    out: t.Dict[str, str] = {}
+    for path, hunks in parse_patch(text).items():
+        full = os.path.join(root, path)
+        if not os.path.exists(full):
+            return None
+        lines = open(full, encoding='utf-8').read().split('\n')
+        offset = 0
+        for (start, old, new) in hunks:
+            pos = None
+            guess = start - 1 + offset
+            for d in sorted(range(-60, 61), key=abs):
+                i = guess + d
+                if 0 <= i <= len(lines) - len(old) and lines[i:i + len(old)] == old:
+                    pos = i
+                    break
+            if pos is None:
+                return None
+            lines[pos:pos + len(old)] = new
+            offset += len(new) - len(old) + (pos - guess)
+        out[path] = '\n'.join(lines)
+    return out
+
+
+# ---------------------------------------------------------------------------- AST mutants
+
+
+class Variant:
+    def __init__(self, name: str, kind: str, overrides: t.Dict[str, str]):
+        self.name = name
+        self.kind = kind          # 'break' | 'benign'
+        self.overrides = overrides
+
+
+def _src(root: str, rel: str) -> str:
+    return open(os.path.join(root, rel), encoding='utf-8').read()
+
+
+def _mutate(root: str, rel: str, pick: t.Callable[[ast.AST], bool], edit: t.Callable[[ast.AST], t.Optional[ast.AST]],
+            label: str, kind: str, limit: int = 400) -> t.List[Variant]:
+    """One variant per node of ``rel`` satisfying ``pick``; ``edit`` rewrites (a deep copy of) that node in place
+    or returns a replacement."""
+    src = _src(root, rel)
+    tree = ast.parse(src)
+    targets = [n for n in ast.walk(tree) if pick(n)]
+    out = []
+    for idx in range(min(len(targets), limit)):
+        t2 = ast.parse(src)
+        nodes = [n for n in ast.walk(t2) if pick(n)]
+        node = nodes[idx]
+        repl = edit(node)
+        if repl is False:
+            continue
+        if repl is not None and repl is not node:
+            _replace(t2, node, repl)
+        ast.fix_missing_locations(t2)
+        try:
+            new_src = ast.unparse(t2)
+            ast.parse(new_src)
+        except Exception:
+            continue
+        if new_src == ast.unparse(ast.parse(src)):
+            continue
+        out.append(Variant(f"{label}@{rel}:{getattr(node, 'lineno', 0)}", kind, {rel: new_src}))
+    return out
+
+
+def _replace(tree: ast.AST, old: ast.AST, new: t.Any) -> None:
+    for parent in ast.walk(tree):
+        for field, value in ast.iter_fields(parent):
+            if value is old:
+                setattr(parent, field, new)
+                return
+            if isinstance(value, list):
+                for i, v in enumerate(value):
+                    if v is old:
+                        if isinstance(new, list):
+                            value[i:i + 1] = new
+                        else:
+                            value[i] = new
+                        return
+
+
+def _is_name(e: ast.AST, name: str) -> bool:
+    return (isinstance(e, ast.Name) and e.id == name) or (isinstance(e, ast.Attribute) and e.attr == name)
+
+
+def breaking_variants(root: str, prop: str) -> t.List[Variant]:
+    V: t.List[Variant] = []
+    conv, cls_, cvt = 'pane/converters.py', 'pane/classes.py', 'pane/convert.py'
+
+    def narrow(h: ast.AST) -> None:
+        h.type = ast.Name(id='ValueError', ctx=ast.Load())  # type: ignore[attr-defined]
+    if prop in ('C04',):
+        for rel in (conv, cls_):
+            V += _mutate(root, rel, lambda n: isinstance(n, ast.ExceptHandler) and isinstance(n.type, ast.Name) and n.type.id == 'Exception',
+                         narrow, 'narrow-handler', 'break')
+    if prop in ('C03', 'C07', 'C08'):
+        # one-sided: narrow handlers only inside collect_errors* functions
+        def pick_collect(n: ast.AST) -> bool:
+            return isinstance(n, ast.FunctionDef) and 'collect_errors' in n.name and any(
+                isinstance(h, ast.ExceptHandler) and isinstance(h.type, ast.Name) and h.type.id == 'Exception' for h in ast.walk(n))
+
+        def narrow_first(fn: ast.AST) -> None:
+            for h in ast.walk(fn):
+                if isinstance(h, ast.ExceptHandler) and isinstance(h.type, ast.Name) and h.type.id == 'Exception':
+                    h.type = ast.Name(id='ValueError', ctx=ast.Load())
+                    return
+        for rel in (conv, cls_):
+            V += _mutate(root, rel, pick_collect, narrow_first, 'one-sided-narrow', 'break')
+    if prop in ('C03', 'C02', 'C15', 'C01'):
+        # delete a rejecting gate of the fast pass:  if <cond>: raise ParseInterrupt  ->  pass
+        def pick_gate(n: ast.AST) -> bool:
+            return isinstance(n, ast.If) and len(n.body) == 1 and isinstance(n.body[0], ast.Raise) and not n.orelse \
+                and 'ParseInterrupt' in ast.unparse(n.body[0])
+        if prop in ('C03',):
+            for rel in (conv, cls_):
+                V += _mutate(root, rel, pick_gate, lambda n: ast.Pass(), 'delete-gate', 'break')
+    if prop == 'C02':
+        # widen an allowed tuple of the scalar table with str
+        def pick_row(n: ast.AST) -> bool:
+            return isinstance(n, ast.Call) and isinstance(n.func, ast.Name) and n.func.id == 'ScalarConverter' and len(n.args) >= 2 \
+                and ast.unparse(n.args[0]) in ('int', 'float', 'complex', 'bool', 'bytes')
+
+        def widen(c: ast.AST) -> None:
+            a = c.args[1]  # type: ignore[attr-defined]
+            elts = list(a.elts) if isinstance(a, ast.Tuple) else [a]
+            c.args[1] = ast.Tuple(elts=elts + [ast.Name(id='str', ctx=ast.Load())], ctx=ast.Load())  # type: ignore[attr-defined]
+        V += _mutate(root, conv, pick_row, widen, 'widen-allowed', 'break')
+        # replace data_is_sequence by data_is_iterable at a gate
+        V += _mutate(root, conv, lambda n: isinstance(n, ast.Call) and isinstance(n.func, ast.Name) and n.func.id == 'data_is_sequence'
+                     and isinstance(getattr(n, 'ctx', None), type(None)),
+                     lambda n: setattr(n.func, 'id', 'bool') or None, 'gate-to-truthiness', 'break', limit=12)
+    if prop == 'C18':
+        def pick_fw(n: ast.AST) -> bool:
+            return isinstance(n, ast.Call) and any(k.arg in ('handlers', 'custom') and isinstance(k.value, ast.Name) and k.value.id == k.arg
+                                                   for k in n.keywords)
+
+        def drop_kw(c: ast.AST) -> None:
+            c.keywords = [k for k in c.keywords if not (k.arg in ('handlers', 'custom') and isinstance(k.value, ast.Name) and k.value.id == k.arg)]  # type: ignore[attr-defined]
+        for rel in (conv, cls_, cvt, 'pane/io.py'):
+            V += _mutate(root, rel, pick_fw, drop_kw, 'drop-forward', 'break')
+    if prop == 'C19':
+        def pick_opt(n: ast.AST) -> bool:
+            return isinstance(n, ast.Call) and any(k.arg in ('indent', 'sort_keys', 'width', 'allow_unicode', 'explicit_start', 'explicit_end',
+                                                              'default_style', 'default_flow_style') for k in n.keywords)
+
+        def drop_opt(c: ast.AST) -> None:
+            for i, k in enumerate(c.keywords):  # type: ignore[attr-defined]
+                if k.arg in ('indent', 'sort_keys', 'width', 'allow_unicode', 'explicit_start', 'explicit_end', 'default_style', 'default_flow_style'):
+                    del c.keywords[i]  # type: ignore[attr-defined]
+                    return
+        for rel in ('pane/io.py', cls_):
+            V += _mutate(root, rel, pick_opt, drop_opt, 'drop-format-option', 'break')
+    if prop == 'C13':
+        flip = {ast.Gt: ast.GtE, ast.GtE: ast.Gt, ast.Lt: ast.LtE, ast.LtE: ast.Lt, ast.Eq: ast.NotEq, ast.NotEq: ast.Eq}
+
+        def pick_cmp(n: ast.AST) -> bool:
+            return isinstance(n, ast.Lambda) and isinstance(n.body, ast.Compare) and type(n.body.ops[0]) in flip
+
+        def do_flip(lam: ast.AST) -> None:
+            lam.body.ops[0] = flip[type(lam.body.ops[0])]()  # type: ignore[attr-defined]
+        V += _mutate(root, 'pane/annotations.py', pick_cmp, do_flip, 'flip-operator', 'break')
+    if prop == 'C16':
+        def pick_cell(n: ast.AST) -> bool:
+            return isinstance(n, ast.Dict) and len(n.keys) == 16 and all(isinstance(k, ast.Tuple) for k in n.keys)
+
+        src = _src(root, cls_)
+        tree = ast.parse(src)
+        tables = [n for n in ast.walk(tree) if pick_cell(n)]
+        if tables:
+            for i in range(16):
+                t2 = ast.parse(src)
+                d = [n for n in ast.walk(t2) if pick_cell(n)][0]
+                cur = ast.unparse(d.values[i])
+                d.values[i] = ast.Constant(value=None) if cur != 'None' else ast.Name(id='_make_hash', ctx=ast.Load())
+                V.append(Variant(f"flip-hash-cell-{i}", 'break', {cls_: ast.unparse(t2)}))
+    if prop == 'C09':
+        V += _mutate(root, conv, lambda n: isinstance(n, ast.Assign) and ast.unparse(n) == 'val = val.copy()', lambda n: ast.Pass(), 'delete-copy', 'break')
+    if prop == 'C01':
+        def pick_abs(n: ast.AST) -> bool:
+            return isinstance(n, ast.Dict) and any(ast.unparse(k) == 'os.PathLike' for k in n.keys if k is not None)
+        src = _src(root, cvt)
+        tree = ast.parse(src)
+        if [n for n in ast.walk(tree) if pick_abs(n)]:
+            n_rows = len([n for n in ast.walk(tree) if pick_abs(n)][0].keys)
+            for i in range(n_rows):
+                t2 = ast.parse(src)
+                d = [n for n in ast.walk(t2) if pick_abs(n)][0]
+                if ast.unparse(d.keys[i]).startswith('t.'):
+                    continue      # typing aliases are never looked up (the origin class is)
+                d.values[i] = ast.Name(id='bytearray' if ast.unparse(d.values[i]) != 'bytearray' else 'list', ctx=ast.Load())
+                V.append(Variant(f"retarget-abstract-row-{i}", 'break', {cvt: ast.unparse(t2)}))
+    if prop == 'C14':
+        V += _mutate(root, cls_, lambda n: isinstance(n, ast.Call) and isinstance(n.func, ast.Attribute) and n.func.attr == 'default_factory'
+                     and not n.args, lambda n: n.func, 'uncall-factory', 'break')
+    if prop == 'C10':
+        V += _mutate(root, 'pane/util.py', lambda n: isinstance(n, ast.Assign) and ast.unparse(n.targets[0]).startswith('self._refs['),
+                     lambda n: ast.Pass(), 'drop-keepalive', 'break')
+    if prop == 'C11':
+        def rev(n: ast.AST) -> None:
+            n.iter = ast.Call(func=ast.Name(id='reversed', ctx=ast.Load()), args=[ast.Call(func=ast.Name(id='list', ctx=ast.Load()), args=[n.iter], keywords=[])], keywords=[])  # type: ignore[attr-defined]
+        V += _mutate(root, conv, lambda n: isinstance(n, ast.For) and 'self.converters' in ast.unparse(n.iter) and 'zip' not in ast.unparse(n.iter), rev, 'reverse-members', 'break', limit=4)
+    return V
+
+
+# ---------------------------------------------------------------------------- benign rewrites
+
+
+class _Renamer(ast.NodeTransformer):
+    def __init__(self, names: t.Set[str]):
+        self.names = names
+
+    def visit_Name(self, n: ast.Name) -> ast.AST:
+        if n.id in self.names:
+            n.id = n.id + '_rn'
+        return n
+
+    def visit_ExceptHandler(self, n: ast.ExceptHandler) -> ast.AST:
+        if n.name in self.names:
+            n.name = n.name + '_rn'
+        self.generic_visit(n)
+        return n
+
+    def visit_FunctionDef(self, n: ast.FunctionDef) -> ast.AST:
+        return n      # nested functions have their own scope (free variables of the renamed set are not touched)
+
+    def visit_Lambda(self, n: ast.Lambda) -> ast.AST:
+        return n
+
+
+def _locals_of(fn: ast.FunctionDef) -> t.Set[str]:
+    params = {a.arg for a in (*fn.args.posonlyargs, *fn.args.args, *fn.args.kwonlyargs)} | \
+        {x.arg for x in (fn.args.vararg, fn.args.kwarg) if x is not None}
+    out: t.Set[str] = set()
+    nested_free: t.Set[str] = set()
+    for st in fn.body:
+        for n in ast.walk(st):
+            if isinstance(n, (ast.FunctionDef, ast.Lambda)):
+                for x in ast.walk(n):
+                    if isinstance(x, ast.Name):
+                        nested_free.add(x.id)
+    def visit(n: ast.AST) -> None:
+        for ch in ast.iter_child_nodes(n):
+            if isinstance(ch, (ast.FunctionDef, ast.Lambda, ast.ClassDef)):
+                continue
+            if isinstance(ch, (ast.ListComp, ast.SetComp, ast.DictComp, ast.GeneratorExp)):
+                continue       # comprehension scopes: leave alone
+            if isinstance(ch, ast.Name) and isinstance(ch.ctx, (ast.Store, ast.Del)):
+                out.add(ch.id)
+            if isinstance(ch, ast.ExceptHandler) and ch.name:
+                out.add(ch.name)
+            if isinstance(ch, (ast.Global, ast.Nonlocal)):
+                for nm in ch.names:
+                    nested_free.add(nm)
+            visit(ch)
+    for st in fn.body:
+        visit(st)
+    # names also used inside comprehensions / nested scopes are left alone to keep the rewrite trivially safe
+    comp_names: t.Set[str] = set()
+    for st in fn.body:
+        for n in ast.walk(st):
+            if isinstance(n, (ast.ListComp, ast.SetComp, ast.DictComp, ast.GeneratorExp)):
+                for x in ast.walk(n):
+                    if isinstance(x, ast.Name):
+                        comp_names.add(x.id)
+    return out - params - nested_free - comp_names
+
+
+def benign_variants(root: str, rels: t.Sequence[str]) -> t.List[Variant]:
+    V: t.List[Variant] = []
+    for rel in rels:
+        src = _src(root, rel)
+        # (e) whole-file reformat
+        V.append(Variant(f"reformat@{rel}", 'benign', {rel: ast.unparse(ast.parse(src))}))
+        # (a) rename the locals of each function, one function at a time
+
+        def pick_fn(n: ast.AST) -> bool:
+            return isinstance(n, ast.FunctionDef) and bool(_locals_of(n))
+
+        def rename(fn: ast.AST) -> None:
+            names = _locals_of(fn)  # type: ignore[arg-type]
+            r = _Renamer(names)
+            fn.body = [r.visit(st) for st in fn.body]  # type: ignore[attr-defined]
+        V += _mutate(root, rel, pick_fn, rename, 'rename-locals', 'benign')
+        # (b) raise X()  <->  raise X
+
+        def pick_raise(n: ast.AST) -> bool:
+            return isinstance(n, ast.Raise) and n.exc is not None and (
+                (isinstance(n.exc, ast.Call) and not n.exc.args and not n.exc.keywords and ast.unparse(n.exc.func) == 'ParseInterrupt')
+                or (isinstance(n.exc, ast.Name) and n.exc.id == 'ParseInterrupt'))
+
+        def toggle(rz: ast.AST) -> None:
+            e = rz.exc  # type: ignore[attr-defined]
+            rz.exc = e.func if isinstance(e, ast.Call) else ast.Call(func=e, args=[], keywords=[])  # type: ignore[attr-defined]
+        V += _mutate(root, rel, pick_raise, toggle, 'raise-spelling', 'benign', limit=60)
+        # (c) if a or b: <exit>   ->   if a: <exit>   if b: <exit>
+
+        def pick_or(n: ast.AST) -> bool:
+            return isinstance(n, ast.If) and isinstance(n.test, ast.BoolOp) and isinstance(n.test.op, ast.Or) and not n.orelse \
+                and isinstance(n.body[-1], (ast.Raise, ast.Return, ast.Continue))
+
+        def split(n: ast.AST) -> t.Any:
+            return [ast.If(test=v, body=copy.deepcopy(n.body), orelse=[]) for v in n.test.values]  # type: ignore[attr-defined]
+        V += _mutate(root, rel, pick_or, split, 'split-or', 'benign')
+        # (d) swap the operands of == / != / is / is not
+
+        def pick_eq(n: ast.AST) -> bool:
+            return isinstance(n, ast.Compare) and len(n.ops) == 1 and isinstance(n.ops[0], (ast.Eq, ast.NotEq, ast.Is, ast.IsNot)) \
+                and not isinstance(n.comparators[0], ast.Constant) and not isinstance(n.left, ast.Constant)
+
+        def swap(c: ast.AST) -> None:
+            c.left, c.comparators[0] = c.comparators[0], c.left  # type: ignore[attr-defined]
+        V += _mutate(root, rel, pick_eq, swap, 'swap-eq-operands', 'benign', limit=40)
+    return V
+
+
+# ---------------------------------------------------------------------------- runner
+
+
+def _evaluate(args: t.Tuple[str, str, str, str, t.Dict[str, str]]) -> t.Tuple[str, str, str, t.List[str]]:
+    prop, repo, name, kind, overrides = args
+    from .properties import PROPERTIES
+    try:
+        model = Model(repo, overrides)
+    except AnalysisError as e:
+        return name, kind, 'undecided', [str(e)[:120]]
+    except Exception as e:  # pragma: no cover
+        return name, kind, 'undecided', [f"{type(e).__name__}: {e}"[:120]]
+    known = {k['key'] for k in report.load_known().get('known', []) if k.get('property') == prop}
+    rules: t.List[str] = []
+    errs: t.List[str] = []
+    for rule in PROPERTIES[prop]['rules']:
+        try:
+            rr = rule(model)
+        except AnalysisError as e:
+            errs.append(str(e)[:120])
+            continue
+        except Exception as e:
+            errs.append(f"INTERNAL {type(e).__name__}: {e}"[:120])
+            continue
+        for f in rr.findings:
+            if f.key not in known:
+                rules.append(f"{rr.rule}: {f.construct[:70]}")
+    if rules:
+        return name, kind, 'finding', rules[:3]
+    if errs:
+        return name, kind, 'undecided', errs[:2]
+    return name, kind, 'silent', []
 
 
 def run_selftest(prop: str, repo: str, out: t.Callable[..., None]) -> t.Dict[str, t.Any]:
-    return {'mutants': 0, 'detected': 0, 'missed': [], 'false_alarms': [], 'note': 'self-test not implemented yet'}
+    t0 = time.time()
+    expected: t.Dict[str, t.List[str]] = {}
+    if os.path.exists(EXPECTED_FILE):
+        expected = json.load(open(EXPECTED_FILE, encoding='utf-8'))
+    variants: t.List[Variant] = []
+    skipped: t.List[str] = []
+    for path in sorted(glob.glob(os.path.join(HERE, 'seeded', '*', 'patch.diff')) + glob.glob(os.path.join(HERE, 'regress', '*.diff'))):
+        name = ('seed ' + os.path.basename(os.path.dirname(path))) if '/seeded/' in path else ('regress ' + os.path.basename(path)[:-5])
+        if name not in expected:
+            continue
+        ov = apply_patch(repo, open(path, encoding='utf-8').read())
+        if ov is None:
+            skipped.append(name)
+            continue
+        variants.append(Variant(name, 'break' if prop in expected[name] else 'benign-for-this-property', ov))
+    try:
+        variants += breaking_variants(repo, prop)
+    except Exception as e:  # a self-test generator must never break the check itself
+        skipped.append(f"breaking generator failed: {type(e).__name__}: {e}"[:120])
+    rels = ['pane/converters.py', 'pane/classes.py', 'pane/convert.py', 'pane/errors.py', 'pane/annotations.py', 'pane/util.py',
+            'pane/field.py', 'pane/io.py']
+    try:
+        variants += benign_variants(repo, rels)
+    except Exception as e:
+        skipped.append(f"benign generator failed: {type(e).__name__}: {e}"[:120])
+    jobs = [(prop, repo, v.name, v.kind, v.overrides) for v in variants]
+    results: t.List[t.Tuple[str, str, str, t.List[str]]] = []
+    workers = min(16, os.cpu_count() or 4)
+    if jobs:
+        with ProcessPoolExecutor(max_workers=workers) as ex:
+            results = list(ex.map(_evaluate, jobs, chunksize=4))
+    detected = [n for (n, k, v, _d) in results if k == 'break' and v == 'finding']
+    missed = [n for (n, k, v, _d) in results if k == 'break' and v == 'silent']
+    blind = [(n, d) for (n, k, v, d) in results if k == 'break' and v == 'undecided']
+    false_alarms = [(n, d) for (n, k, v, d) in results if k.startswith('benign') and v == 'finding']
+    went_blind = [(n, d) for (n, k, v, d) in results if k.startswith('benign') and v == 'undecided']
+    quiet = [n for (n, k, v, _d) in results if k.startswith('benign') and v == 'silent']
+    summary = {
+        'variants': len(results),
+        'breaking_variants': len(detected) + len(missed) + len(blind),
+        'detected': len(detected),
+        'missed': missed[:40],
+        'undecided_on_breaking': [f"{n}: {d}" for n, d in blind][:20],
+        'benign_variants': len(quiet) + len(false_alarms) + len(went_blind),
+        'silent_on_benign': len(quiet),
+        'false_alarms': [f"{n}: {d}" for n, d in false_alarms][:40],
+        'undecided_on_benign': [f"{n}: {d}" for n, d in went_blind][:20],
+        'skipped': skipped[:20],
+        'wall_s': round(time.time() - t0, 1),
+        'samples': [{'variant': n, 'kind': k, 'verdict': v, 'detail': d[:1]} for (n, k, v, d) in results[:6]],
+    }
+    out(f"SELFTEST property={prop} variants={summary['variants']} breaking detected {summary['detected']}/{summary['breaking_variants']} "
+        f"benign silent {summary['silent_on_benign']}/{summary['benign_variants']} missed={len(missed)} false_alarms={len(false_alarms)} "
+        f"undecided={len(blind) + len(went_blind)} ({summary['wall_s']}s)")
+    for n in missed[:10]:
+        out(f"    SELFTEST-MISS {n}")
+    for n, d in false_alarms[:10]:
+        out(f"    SELFTEST-FALSE-ALARM {n}: {d}")
+    for n, d in went_blind[:10]:
+        out(f"    SELFTEST-UNDECIDED {n}: {d}")
+    return summary
